@@ -70,6 +70,38 @@ pub fn run(prop: &str, tier: Tier, seed: u64, replay: Option<&str>) -> i32
         };
         return run_check(&spec, tier, seed, replay);
     }
+    if prop == "C14"
+    {
+        let engine = crate::acc14::AccEngine;
+        let spec = CheckSpec{
+            prop: "C14",
+            engine: &engine,
+            quick_cases: 60_000,
+            thorough_cases: 2_000_000,
+            rule: "cases = lists of steps (one system run each, 1..n accessor calls of one accessor family plus world-level insert/trigger/despawn calls) decoded from proptest byte strings; every (call kind x entity/value state) cell is a class; non-trivial = >= 3 distinct cells with >= 1 reacting and >= 1 non-reacting call; distinct = distinct case hashes".into(),
+            assumptions: vec![
+                "probe reactors (type-wide and entity-scoped, persistent) observe every insertion / mutation / resource reaction".into(),
+                "type-wide mutation reactions for an entity that is dead when the trigger is applied are accepted either way (left open by the property set)".into(),
+            ],
+        };
+        return run_check(&spec, tier, seed, replay);
+    }
+    if prop == "C17"
+    {
+        let engine = crate::sys17::SysEngine;
+        let spec = CheckSpec{
+            prop: "C17",
+            engine: &engine,
+            quick_cases: 60_000,
+            thorough_cases: 2_000_000,
+            rule: "cases = histories of calls over three fn systems and the entry points syscall / named_syscall / register_named_system + named_syscall_direct / spawn_system + spawned_syscall / Commands::syscall / Commands::spawned_syscall, with nested calls and calls issued from queued commands, decoded from proptest byte strings; non-trivial = >= 2 keys used and >= 1 nested or command-issued call; distinct = distinct case hashes".into(),
+            assumptions: vec![
+                "re-entering a running syscall / named_syscall key is never generated (documented: state does not persist)".into(),
+                "register_named_system replaces the stored system, so the key's state starts fresh".into(),
+            ],
+        };
+        return run_check(&spec, tier, seed, replay);
+    }
     eprintln!("unknown property {prop}");
     2
 }
